@@ -298,6 +298,42 @@ def r2_normalisation(rep, src, M):
         rep.ok('C02.R2', g.site, 'text lines are encoded', 'str → encode(), bytes unchanged, on every append path', nontrivial=False)
     elif bad_enc is not None:
         rep.fail('C02.R2', g.site, 'text lines are encoded', 'str lines are not converted to bytes before the bytes regexes are applied: ' + bad_enc, where=g.where)
+    # leading blank lines: while nothing but blank lines has been seen, a blank line is skipped and the next line is still "leading"
+    # (the flag that says so is a loop-carried boolean, true before the loop, tested together with a whitespace-only regex)
+    pre0 = gnode.body[:gnode.body.index(gloop)]
+    true_before = {t_.id for st_ in pre0 if isinstance(st_, ast.Assign) and isinstance(st_.value, ast.Constant) and st_.value.value is True
+                   for t_ in st_.targets if isinstance(t_, ast.Name)}
+    lead = None
+    n_lead = 0
+    for p_ in body_paths:
+        flags = [t_.id for t_, pol in p_.conds if pol and isinstance(t_, ast.Name) and t_.id in true_before]
+        blank = None
+        for t_, pol in p_.conds:
+            c_ = t_
+            if isinstance(c_, ast.Call) and isinstance(c_.func, ast.Attribute) and c_.func.attr in ('match', 'fullmatch') and isinstance(c_.func.value, (ast.Name, ast.Attribute)):
+                nm_ = c_.func.value.attr if isinstance(c_.func.value, ast.Attribute) else c_.func.value.id
+                try:
+                    r_ = src.regex('deb822', nm_, cls='Deb822')
+                except AnalysisError:
+                    continue
+                if M.L(nm_, 'match').intersect(M.pat(r'[^\n]*')).not_subset_witness(M.pat(r'\s*', re.ASCII)) is None and flags and blank is None:
+                    blank = pol
+        if not flags or blank is None:
+            continue
+        n_lead += 1
+        flag = flags[0]
+        cleared = isinstance(p_.env.get(flag), ast.Constant) and p_.env[flag].value is False
+        if blank and (cleared or p_.outcome is None or p_.outcome[0] != 'continue'):
+            lead = 'a leading blank line %s: only the first blank line before a paragraph is ignored' % (
+                'clears the flag `%s`' % flag if cleared else 'is not skipped')
+        if not blank and not cleared:
+            lead = lead or 'the flag `%s` stays set after a non-blank line: blank lines inside the document are dropped' % flag
+    if n_lead < 2:
+        raise AnalysisError('%s: the handling of leading blank lines was not found (flag true before the loop, tested with a blank-line regex)' % g.site)
+    if lead is None:
+        rep.ok('C02.R2', g.site, 'all leading blank lines are skipped', 'blank → continue with the flag still set; first other line clears it')
+    else:
+        rep.fail('C02.R2', g.site, 'all leading blank lines are skipped', lead + ' (input forms with a different number of leading blank lines give different results)', where=g.where)
     # blank-line rule selection: the regex used as paragraph separator, per value of the strictness switch
     pre = gnode.body[:gnode.body.index(gloop)]
     pre_paths = [p_ for p_ in paths.Enumerator(paths.Folder(consts, dict_default)).run(pre, [paths.Path()]) if p_.outcome is None]
@@ -416,6 +452,49 @@ def r4_accumulation(rep, src, M):
     rep.extra['line_classes'] = ['%s → %s' % (' '.join(('' if pol else '¬') + n for n, _m, pol in b['lits']), b['kind']) for b in M.cascade]
 
 
+def r5_key_acceptance(rep, src, M):
+    """no path of validate_input (helpers inlined, locals substituted away) rejects a policy-valid field name: for every raising
+    path whose deciding condition is about the key, the language of the keys taking that path is disjoint from the policy names"""
+    V = M.validator()
+    f = V['func']
+    key = f.params()[1]
+    alpha = M.alpha
+    policy = M.pat(KEY_RE)
+
+    def regex_atom(t):
+        if isinstance(t, ast.Call) and isinstance(t.func, ast.Attribute) and t.func.attr in ('match', 'fullmatch', 'search') and len(t.args) == 1 \
+                and norm(t.args[0]) == key and isinstance(t.func.value, (ast.Name, ast.Attribute)):
+            nm = t.func.value.attr if isinstance(t.func.value, ast.Attribute) else t.func.value.id
+            r_ = src.regex('deb822', nm, cls='Deb822' if isinstance(t.func.value, ast.Attribute) else None)
+            pat, fl = r_['pattern'], r_['flags']
+            if isinstance(pat, bytes):
+                pat, fl = rx.bytes_pattern_as_str(pat), fl | re.ASCII
+            return rx.regex_lang(pat, fl, t.func.attr, alpha=alpha)
+        return None
+    n_raise = 0
+    bad = None
+    for p_ in V['paths']:
+        if p_.outcome[0] != 'raise' or not p_.conds:
+            continue
+        last = p_.conds[-1][0]
+        if not any(isinstance(x, ast.Name) and x.id == key for x in ast.walk(last)):
+            continue
+        n_raise += 1
+        lang = policy
+        for t_, pol in p_.conds:
+            if not any(isinstance(x, ast.Name) and x.id == key for x in ast.walk(t_)):
+                continue
+            pl = strlang.pred_lang(t_, key, alpha, atom=regex_atom)
+            lang = lang.intersect(pl if pol else pl.complement())
+        w = lang.witness()
+        if w is not None and bad is None:
+            bad = 'the policy-valid field name %r is rejected (%s)' % (w, p_.describe()[:100])
+    if bad is None:
+        rep.ok('C02.R5', f.site, 'every policy-valid field name is accepted', '%d key-rejecting path(s), none reachable with a policy-valid name' % n_raise)
+    else:
+        rep.fail('C02.R5', f.site, 'every policy-valid field name is accepted', bad + ': building, assigning and re-parsing such a field raises ValueError', where=f.where)
+
+
 def check(src, rep, tier):
     rep.explanation = ('C02: the dump template of Deb822._dump_format is extracted (E3) and instantiated with the property\'s value '
                        'grammar (empty / empty first line + continuation / text first line / blank first line); the text language is '
@@ -430,8 +509,10 @@ def check(src, rep, tier):
     rep.need('C02.R2', 5)
     rep.need('C02.R3', 4)
     rep.need('C02.R4', 5)
+    rep.need('C02.R5', 1)
     M = Model(src, rep)
     rep.guard('C02.R1', r1_agreement, src, M)
     rep.guard('C02.R2', r2_normalisation, src, M)
     rep.guard('C02.R3', r3_twins, src, M)
     rep.guard('C02.R4', r4_accumulation, src, M)
+    rep.guard('C02.R5', r5_key_acceptance, src, M)
